@@ -53,7 +53,7 @@ def handle(c):
     spec = c['spec']
     rnd = random.Random(c['seed'])
     coupled = bool(spec.get('coupled'))
-    tol = 1e-9 if coupled else 0
+    tol = 1e-9 if (coupled and not c.get('lagging')) else 0
     fname = './c19_%d.sql' % os.getpid()
     try:
         p = kmodels.build(spec, make_driver(c['driver']))
@@ -65,7 +65,11 @@ def handle(c):
         p.driver.recording_options['includes'] = ['*']
         p.driver.recording_options['record_inputs'] = True
         p.model.add_recorder(rec)
+        if c.get('lagging') and '' in spec.get('solvers', {}):
+            pass
         p.setup()
+        if c.get('lagging') and '' in spec.get('solvers', {}):
+            p.model.nonlinear_solver.add_recorder(rec)
         kmodels.set_init(p, spec)
         free = sorted(spec.get('init', {}))
         n = spec['comps'][0]['n']
@@ -124,7 +128,13 @@ def handle(c):
             stats['values'] += 1
             if not same(a_out[k], v, 0):
                 bad('%s: get_val(%s) = %r, recorded %r' % (lab, k, a_out[k].tolist(), v.tolist()))
+        cout_d = dict(cout)
         for k, v in cin:
+            if c.get('lagging') and conns[k] in cout_d and not same(cout_d[conns[k]], v, 0):
+                # recorded in the middle of an iteration: this input lags its source; a connected input reads its
+                # source, so only the model comparison (below) says what get_val must return here
+                stats['lagging_inputs'] = stats.get('lagging_inputs', 0) + 1
+                continue
             stats['values'] += 1
             if not same(a_in[k], v, tol):
                 bad('%s: get_val(%s) = %r, recorded input %r' % (lab, k, a_in[k].tolist(), v.tolist()))
@@ -142,7 +152,7 @@ def handle(c):
                     bad('%s: input %s (source %s) is not in the case but changed from %r to %r' % (
                         lab, k, conns[k], b_in[k].tolist(), a_in[k].tolist()))
         complete = set(outs) <= {k for k, _ in cout}
-        if complete:
+        if complete and not c.get('lagging'):
             try:
                 q.run_model()
                 r_in, r_out = snapshot(q, ins, outs)
@@ -158,7 +168,7 @@ def handle(c):
 
         def vid(a):
             return table.setdefault(np.asarray(a, dtype=float).ravel().tobytes(), len(table))
-        if not coupled:
+        if True:
             out.append({'conns': sorted(conns.items()), 'cin': [[k, vid(v)] for k, v in cin],
                         'cout': [[k, vid(v)] for k, v in cout], 's': [[k, vid(b_out[k])] for k in outs],
                         'outs': outs, 'ins': ins,
@@ -174,7 +184,8 @@ def handle(c):
         sig = 'C19:' + ('frame' if 'not in the case' in m else 'rerun' if 'run_model after' in m else
                         'load-fails' if 'failed' in m else 'input' if 'recorded input' in m else 'output')
     return {'res': out if out else '__none__', 'ok': ok, 'msg': ' ;; '.join(msgs[:3]), 'sig': sig,
-            'kind': ('coupled' if coupled else 'explicit') + '/' + c['driver']['type'] +
+            'kind': ('lagging' if c.get('lagging') else 'coupled' if coupled else 'explicit') +
+                    ('/override' if spec.get('load_override') else '') + '/' + c['driver']['type'] +
                     ('/partial' if c.get('partial') is not None else ''), 'stats': stats}
 
 
